@@ -207,7 +207,25 @@ def execute(plan, prop, trace):
         if mode == "single":
             fr = [BCURSingle(text).encode(use_checksum=s.get("use_checksum", True))]
         else:
-            fr = BCURMulti(text).encode(max_size_per_chunk=s["chunk"], animate=s.get("animate", True))
+            # the sender's display may redraw the animation (same or another chunk size) from the SAME object before the
+            # frames that get captured are produced: every frame set it ever returned must stay intact and reassemble exactly
+            bm = BCURMulti(text)
+            earlier = []
+            for rd in s.get("redraws", []):
+                tr.fault("sender_redraw")
+                live = bm.encode(max_size_per_chunk=rd["chunk"], animate=rd.get("animate", True))
+                earlier.append((list(live), live, rd))
+            fr = bm.encode(max_size_per_chunk=s["chunk"], animate=s.get("animate", True))
+            for snap, live, rd in earlier:
+                tr.oracle("A3_redraw")
+                if list(live) != snap:
+                    fail("A3", "earlier_frames_changed", f"sender {si}: frames returned by encode(chunk={rd['chunk']}) changed after a later encode() on the same object")
+                try:
+                    o2 = BCURMulti.parse(list(snap))
+                    if a2b_base64(o2.text_b64) != p:
+                        fail("A3", "redraw_wrong_payload", f"sender {si}: frames of an earlier encode(chunk={rd['chunk']}) reassemble to another payload")
+                except Exception as ex:
+                    fail("A3", "redraw_rejected", f"sender {si}: frames of an earlier encode(chunk={rd['chunk']}) do not reassemble: {type(ex).__name__}: {ex}")
             # structural A3 clauses: labelled 1..n of n, no empty part, chunk size respected
             tr.oracle("A3_frames")
             n = len(fr)
@@ -402,6 +420,9 @@ def generate(ch, tier, prop):
              "fill": ch.choice(["rand", "rand", "rand", "zero", "ff"])}
         if mode == "single":
             s["use_checksum"] = ch.chance(0.7)
+        elif ch.chance(0.3):
+            c0 = s["chunk"]
+            s["redraws"] = [{"chunk": ch.choice([c0, c0, max(1, c0 - 1), c0 + 1, ch.randrange(1, 2001), 100000]), "animate": ch.chance(0.85)} for _ in range(ch.randrange(1, 4))]
         senders.append(s)
     if nsend == 2 and ch.chance(0.3):
         senders[1] = dict(senders[0])  # same payload, same part count: cross-talk of an identical animation
@@ -487,6 +508,13 @@ def enumerate_plans(tier, prop, seed):
         for pos in range(32):
             for c in reps:
                 yield dict(base, steps=[{"s": 0, "i": 0, "mut": {"kind": "sub_payload", "pos": pos, "c": c, "v": 0}}], enum="subst1")
+    # (4b) redraw histories: every ordered pair/triple of chunk sizes from a small set on the same sender object
+    sizes = (5, 6, 7, 20, 21, 1000) if tier == "quick" else (1, 2, 5, 6, 7, 8, 19, 20, 21, 40, 1000)
+    for L in ((27,) if tier == "quick" else (0, 4, 27, 40)):
+        for hist in list(product(sizes, repeat=2)) + (list(product(sizes[:4], repeat=3)) if tier == "thorough" else []):
+            for anim_last in (True, False):
+                yield {"mode": "multi", "senders": [{"len": L, "pseed": 4500 + seed, "chunk": hist[-1], "animate": anim_last, "redraws": [{"chunk": c, "animate": True} for c in hist[:-1]]}],
+                       "receiver": "naive", "steps": [], "enum": "redraws"}
     # (5) CBOR boundaries and chunk-size sweep on clean deliveries
     for L in (0, 1, 22, 23, 24, 25, 254, 255, 256, 257):
         for chunk in (1, 2, 3, 7, 50, 300):
@@ -508,6 +536,10 @@ def shrink(plan):
             yield p
     if len(plan["senders"]) > 1:
         yield dict(plan, senders=plan["senders"][:1], steps=[s for s in plan["steps"] if s["s"] == 0])
+    for k, sd in enumerate(plan["senders"]):
+        rds = sd.get("redraws") or []
+        for j in range(len(rds)):
+            yield dict(plan, senders=plan["senders"][:k] + [dict(sd, redraws=rds[:j] + rds[j + 1 :])] + plan["senders"][k + 1 :])
     for key in ("relabel", "drain", "rotation", "lost"):
         if plan.get(key):
             p = dict(plan)
